@@ -434,6 +434,8 @@ def typed_array_case(case):
     n = len(world.cells)
     arr = TYPED[case['dtype']](n)
     src = arr.copy()
+    if case.get('frozen'):
+        arr.flags.writeable = False      # the caller hands over a write-protected array (and thaws it afterwards)
     if case.get('via') == 'lookup':
         # the same values as a numpy table of the bundled lookup generator (entry [x][y][z] belongs to cell (x, y, z))
         if src.dtype.kind == 'O':
@@ -457,10 +459,57 @@ def typed_array_case(case):
                             expected=repr(want), observed=repr(got[i]))
     if not np.array_equal(arr, src) and src.dtype.kind != 'O':
         raise Violation('the caller\'s array was modified')
+    if case.get('frozen'):
+        arr.flags.writeable = True
     arr[0] = arr[-1]          # the caller's array stays the caller's
     if n > 1 and src.dtype.kind != 'O' and bool(list(world.cells['t'])[0] == src[-1]) and src[0] != src[-1]:
         raise Violation(f'the column aliases the caller\'s {case["dtype"]} array')
     return n
+
+
+def redeclare_missing_case(case):
+    """A component is declared, then declared again from a source that assigns "no value" (NaN / None) to some cells:
+    those cells hold what the NEW source assigns, like every other cell."""
+    import math
+    from mc.engine.seams import reset_library
+    reset_library()
+    world = mk(new_model(seed=1), case['kind'], case['dims'])
+    n = len(world.cells)
+    first = [1.5 + i for i in range(n)]
+    hole = float('nan') if case['missing'] == 'nan' else None
+    second = [hole if i in (0, n // 2) else 100.0 + i for i in range(n)]
+    world.add_cell_component('h', {'list': list(first), 'array': np.array(first), 'callable': None}[case['first']]
+                             if case['first'] != 'callable' else (lambda pos, cells: first[_cell_index(world, pos)]))
+    how = case['second']
+    if how == 'list':
+        src = list(second)
+    elif how == 'array':
+        src = np.array(second, dtype=float if hole is not None else object)
+    else:
+        src = lambda pos, cells: second[_cell_index(world, pos)]      # noqa
+    world.add_cell_component('h', src)
+    got = list(world.cells['h'])
+    for i in range(n):
+        w_, g = second[i], got[i]
+        ok = (g is None or (isinstance(g, float) and math.isnan(g))) if (w_ is None or w_ != w_) else g == w_
+        if not ok:
+            raise Violation(f'component declared from a {case["first"]}, then again from a {how} that assigns {case["missing"]} to '
+                            f'cells 0 and {n // 2}: cell {i} of the {case["dims"]} world', expected=repr(w_), observed=repr(g))
+    return n
+
+
+def _cell_index(world, pos):
+    w_, h_ = max(world.width, 1), max(world.height, 1)
+    return int(pos[0] + pos[1] * w_ + pos[2] * w_ * h_)
+
+
+def redeclare_missing_cases():
+    for kind, dims in (('line', [5]), ('grid', [3, 2]), ('discrete', [2, 2, 2])):
+        for first in ('list', 'array', 'callable'):
+            for second in ('list', 'array', 'callable'):
+                for missing in ('nan', 'none'):
+                    yield {'leg': 'redeclare_missing', 'kind': kind, 'dims': dims, 'first': first, 'second': second,
+                           'missing': missing}
 
 
 def many_components_case(case):
@@ -499,6 +548,8 @@ def typed_array_cases():
     for kind, dims in (('line', [5]), ('grid', [3, 2]), ('discrete', [2, 2, 2]), ('discrete', [0, 3, 0])):
         for dt in TYPED:
             yield {'leg': 'typed_array', 'kind': kind, 'dims': dims, 'dtype': dt}
+            if dt in ('float32', 'uint64', 'str', 'datetime64[ns]', 'bool'):
+                yield {'leg': 'typed_array', 'kind': kind, 'dims': dims, 'dtype': dt, 'frozen': True}
             if kind == 'discrete':      # (the lookup generator is handed 3-tuples: finding F4 keeps it to 3-D worlds)
                 yield {'leg': 'typed_array', 'kind': kind, 'dims': dims, 'dtype': dt, 'via': 'lookup'}
 
@@ -572,6 +623,17 @@ def run(ctx):
         except Violation as v:
             ctx.report(case, v)
     ctx.leg('typed_arrays', cases=nt, dtypes=sorted(TYPED))
+    nm = 0
+    for case in redeclare_missing_cases():
+        if ctx.violations:
+            break
+        ctx.traces += 1
+        nm += 1
+        try:
+            ctx.transitions += hbfs._guard(redeclare_missing_case, case)
+        except Violation as v:
+            ctx.report(case, v)
+    ctx.leg('redeclare_missing', cases=nm, note='a component declared again from a source that assigns NaN / None to some cells')
     if not ctx.violations and not ctx.small:
         for case in ({'leg': 'many_components', 'kind': 'grid', 'dims': [3, 2], 'components': 120},
                      {'leg': 'many_components', 'kind': 'line', 'dims': [4], 'components': 260}):
@@ -587,6 +649,9 @@ def run(ctx):
 
 
 def replay(case):
+    if case['leg'] == 'redeclare_missing':
+        hbfs._guard(redeclare_missing_case, case)
+        return
     if case['leg'] == 'typed_array':
         hbfs._guard(typed_array_case, case)
         return
